@@ -284,7 +284,7 @@ fn known_findings() -> Vec<Value> {
 }
 
 pub fn wall_cap_s(tier: Tier) -> u64 {
-    let d = if tier.thorough() { 3 * 3600 } else { 600 };
+    let d = if tier.thorough() { 3 * 3600 } else { 900 };
     std::env::var("VERIF_WALL_CAP_S").ok().and_then(|s| s.parse().ok()).unwrap_or(d)
 }
 
